@@ -177,8 +177,11 @@ def judge_wrap(rec, before, after, flags, entry):
 
     # (3) every atom inside the (new) cell
     rel1 = G.rel(after['pos'], v1, o1)
-    L1min = np.linalg.norm(v1, axis=1).min()
-    bound = 1e-9 * (osc + np.abs(o1).max() / L1min)
+    L1min = min(np.linalg.norm(v1, axis=1).min(), G.perp_widths(v1).min())
+    # Box.vects zeroes components below 1e-9 * max|vects| (documented): in a cell whose longest vector is much longer
+    # than its thinnest width, that moves relative coordinates by up to 1e-9 * max|vects| / width (found by the
+    # thorough sweep with seed 21: a/b = 1e-2, atom 2e-7 beyond the face after the non-periodic b was enlarged)
+    bound = 1e-9 * (osc + (np.abs(o1).max() + np.abs(v1).max()) / L1min)
     out = (rel1 < -bound) | (rel1 > 1 + bound)
     rec.check(not out.any(), 'every atom is inside the cell after wrap', K + 'inside',
               rel_after=rel1[out.any(axis=1)][:3], rel_before=rel0[out.any(axis=1)][:3], bound=bound,
@@ -307,7 +310,7 @@ def judge_normalize(rec, system, before, new, T, want_T):
         return
     # (e) every atom inside
     rel1 = G.rel(after['pos'], nv, no)
-    bound = 1e-9 * (osc + np.abs(no).max() / np.linalg.norm(nv, axis=1).min())
+    bound = 1e-9 * (osc + (np.abs(no).max() + np.abs(nv).max()) / min(np.linalg.norm(nv, axis=1).min(), G.perp_widths(nv).min()))
     out = (rel1 < -bound) | (rel1 > 1 + bound)
     rec.check(not out.any(), 'every atom is inside the normalized cell', K + 'inside', rel_after=rel1[out.any(axis=1)][:3], bound=bound, **detail)
     rec.count('normalize:atoms', n)
